@@ -1903,13 +1903,11 @@ impl ReManager {
             BaseRegLan::Empty => false,
             BaseRegLan::Epsilon => false,
             BaseRegLan::Range(set) => set.contains(c),
-            BaseRegLan::Concat(e1, e2) => {
-                self.start_char(e1, c) || e1.nullable && self.start_char(e2, c)
-            }
             BaseRegLan::Loop(e, _) => self.start_char(e, c),
-            BaseRegLan::Inter(args) => args.iter().all(|x| self.start_char(x, c)),
             BaseRegLan::Union(args) => args.iter().any(|x| self.start_char(x, c)),
-            BaseRegLan::Complement(_) => {
+            // a concatenation or intersection may be empty even if its first operand (resp.
+            // every operand) has a string that starts with c: decide these semantically
+            BaseRegLan::Concat(..) | BaseRegLan::Inter(_) | BaseRegLan::Complement(_) => {
                 // expensive case
                 let d = self.deriv(e, c);
                 !self.is_empty_re(d)
